@@ -1,14 +1,59 @@
-(* C07 — Encoding touches exactly its bytes, and each field exactly its bits.
-   Python half (the C half, C07_c_*, is in the same file once the C runtime model is merged). *)
+(* C07 — encoding touches exactly its bytes, and each field exactly its bits (C half, then Python half).
+   Only statements, each closed by [exact] of a lemma proved elsewhere + Print Assumptions. *)
 From Coq Require Import ZArith List Bool.
-From BP Require Import Bits Schema Spec PyRt PyEncTop PyContain PyDecProofs PyDecTop.
+From BP Require Import Bits Schema Spec CMem CRt CCopyProofs CEncProofs CTop.
+From BP Require PyRt PyEncTop PyContain PyDecProofs PyDecTop.
+From BPGen Require Import GenC.
 Import ListNotations.
 Open Scope Z_scope.
 
-(* the byte-length constant is ceil(N/8) *)
-Theorem C07_size_constant : forall t, nbytes t = (nbits t + 7) / 8.
-Proof. reflexivity. Qed.
+(* the byte-length constant: what the compiler computes (Type.nbytes, translated) is
+   ceil(nbits/8); the three emitters print that number (checked per schema by T1 in the
+   check: C macro, Go const and Size(), Python BYTES_LENGTH) *)
+Theorem C07_size_constant : forall t,
+  0 <= nbits t -> ast_nbytes (nbits t) = nbytes t /\ nbytes t = (nbits t + 7) / 8.
+Proof. exact size_constant. Qed.
 Print Assumptions C07_size_constant.
+
+(* no out-of-bounds access while encoding: in the bounds-checked memory, with the stream
+   buffer exactly BYTES_LENGTH bytes and every field object exactly sizeof bytes, for
+   ARBITRARY storage contents, Encode<Msg> returns normally (COk: never MemErr) — this is
+   where the 2- and 4-byte loads/stores of the fast paths are shown to stay inside *)
+Theorem C07_c_no_oob_encode : forall B E t o,
+  B = E -> c_schema t -> shape_ok (norm t) o ->
+  exists bs, c_encode_ty B E t o = COk bs /\ Z.of_nat (length bs) = nbytes t.
+Proof. exact c_no_oob_encode. Qed.
+Print Assumptions C07_c_no_oob_encode.
+
+(* ... and while decoding a buffer produced by the same schema: the buffer is exactly
+   ceil(N/8) bytes, nothing beyond it is read, nothing outside the field objects is written *)
+Theorem C07_c_no_oob_decode : forall B E t v,
+  B = E -> c_schema t -> has_ty (norm t) v = true ->
+  Z.of_nat (length (wire t v)) = nbytes t /\
+  exists o, c_decode_ty B E t (wire t v) = COk o.
+Proof. exact c_no_oob_decode. Qed.
+Print Assumptions C07_c_no_oob_decode.
+
+(* containment: the encoded bytes are the wire of the value READ BACK from storage, and two
+   storages that agree on the low n bits of every field give the same bytes — bits outside
+   a field's low n bits never reach another field's bits or the padding *)
+Theorem C07_c_contained : forall B E t o1 o2,
+  B = E -> c_schema t -> shape_ok (norm t) o1 -> shape_ok (norm t) o2 ->
+  low_eq (norm t) (abs_val E (norm t) o1) (abs_val E (norm t) o2) ->
+  c_encode_ty B E t o1 = COk (wire t (abs_val E (norm t) o1)) /\
+  c_encode_ty B E t o2 = c_encode_ty B E t o1.
+Proof. exact c_encode_contained. Qed.
+Print Assumptions C07_c_contained.
+
+(* a uint5 holding 0xFF next to a bool and a uint3: only its low 5 bits reach the wire *)
+Definition ex_t : ty := TMsg false [(1, TBool); (2, TUint 5); (3, TUint 3); (4, TArr false 2 (TInt 7))].
+Definition ex_o1 : obj := OS [(1, OB [254]); (2, OB [255]); (3, OB [248]); (4, OB [255; 128])].
+Definition ex_o2 : obj := OS [(1, OB [0]); (2, OB [31]); (3, OB [0]); (4, OB [127; 0])].
+Example C07_nonvacuous :
+  c_schema ex_t /\ c_encode_ty LE LE ex_t ex_o1 = COk [62; 254; 0] /\ c_encode_ty LE LE ex_t ex_o2 = COk [62; 254; 0].
+Proof. vm_compute. repeat split; reflexivity. Qed.
+
+(* ======================= Python half ======================= *)
 
 (* integer fields holding ARBITRARY integers (too large, negative for unsigned): encode()
    does not raise, writes exactly the ceil(N/8)-byte buffer (the model's buffer is a list of
@@ -16,8 +61,8 @@ Print Assumptions C07_size_constant.
    leaf modulo 2^width *)
 Theorem C07_py_any_ints : forall t v,
   PyEncTop.is_msg t = true -> wf (norm t) = true -> shape_ty (norm t) v = true ->
-  py_encode t v = Ok (wire t v).
-Proof. exact py_encode_any_ints. Qed.
+  PyRt.py_encode t v = PyRt.Ok (wire t v).
+Proof. exact PyContain.py_encode_any_ints. Qed.
 Print Assumptions C07_py_any_ints.
 
 (* the bits a field contributes are a function of its low n bits only: two values whose
@@ -25,24 +70,24 @@ Print Assumptions C07_py_any_ints.
 Theorem C07_py_contained : forall t v1 v2,
   PyEncTop.is_msg t = true -> wf (norm t) = true ->
   shape_ty (norm t) v1 = true -> shape_ty (norm t) v2 = true ->
-  val_cong (norm t) v1 v2 = true ->
-  py_encode t v1 = py_encode t v2.
-Proof. exact py_contained. Qed.
+  PyContain.val_cong (norm t) v1 v2 = true ->
+  PyRt.py_encode t v1 = PyRt.py_encode t v2.
+Proof. exact PyContain.py_contained. Qed.
 Print Assumptions C07_py_contained.
 
 (* decoding a buffer produced by the same schema reads nothing beyond its ceil(N/8) bytes:
    the decoder model, run on exactly that buffer with bounds-checked reads, returns Ok *)
 Theorem C07_py_decode_in_bounds : forall t v,
-  PyEncTop.is_msg t = true -> wf (norm t) = true -> dec_guard (norm t) = true ->
+  PyEncTop.is_msg t = true -> wf (norm t) = true -> PyDecProofs.dec_guard (norm t) = true ->
   has_ty (norm t) v = true ->
-  py_decode t (wire t v) = Ok (canon (norm t) v).
-Proof. exact py_decode_wire. Qed.
+  PyRt.py_decode t (wire t v) = PyRt.Ok (PyDecProofs.canon (norm t) v).
+Proof. exact PyDecTop.py_decode_wire. Qed.
 Print Assumptions C07_py_decode_in_bounds.
 
-Definition ex_t : ty := TMsg false [(2, TUint 5); (1, TInt 3); (3, TArr false 2 (TUint 9)); (4, TBool)].
-Definition ex_v1 : val := VM [(2, VZ 1000); (1, VZ (-77)); (3, VL [VZ (-1); VZ 513]); (4, VB true)].
-Definition ex_v2 : val := VM [(2, VZ 8); (1, VZ 3); (3, VL [VZ 511; VZ 1]); (4, VB true)].
+Definition ex_py_t : ty := TMsg false [(2, TUint 5); (1, TInt 3); (3, TArr false 2 (TUint 9)); (4, TBool)].
+Definition ex_py_v1 : val := VM [(2, VZ 1000); (1, VZ (-77)); (3, VL [VZ (-1); VZ 513]); (4, VB true)].
+Definition ex_py_v2 : val := VM [(2, VZ 8); (1, VZ 3); (3, VL [VZ 511; VZ 1]); (4, VB true)].
 Example C07_py_nonvacuous :
-  shape_ty (norm ex_t) ex_v1 = true /\ has_ty (norm ex_t) ex_v1 = false /\
-  val_cong (norm ex_t) ex_v1 ex_v2 = true /\ py_encode ex_t ex_v1 = Ok (wire ex_t ex_v2).
+  shape_ty (norm ex_py_t) ex_py_v1 = true /\ has_ty (norm ex_py_t) ex_py_v1 = false /\
+  PyContain.val_cong (norm ex_py_t) ex_py_v1 ex_py_v2 = true /\ PyRt.py_encode ex_py_t ex_py_v1 = PyRt.Ok (wire ex_py_t ex_py_v2).
 Proof. vm_compute. repeat split; reflexivity. Qed.
